@@ -61,6 +61,12 @@ for k, what in (("arrays", "array argument: exactly the window positions i with 
 ob("O-C07-writebuf-utf8", ["C07"], J, "c07_write_buf_invalid_utf8", "write_buf (the writer behind tojson / tostring / @json) on the text string a, 0xFF, b: the invalid byte is written unchanged between the quotes (not replaced by U+FFFD), as the command-line writer does", ["jaq-json/src/write.rs::write_buf"], label="point", kind="point")
 ob("O-C07-writebuf-atoms", ["C07"], J, "c07_write_buf_atoms", "write_buf on null and true writes the four bytes of the literal", ["jaq-json/src/write.rs::write_buf"], label="point", kind="point")
 
+for k, tier, what in (("plain", "quick", "text string: the bytes a, 0xFF, b before the closing quote are copied unchanged (invalid UTF-8 preserved as-is)"),
+                      ("bytes", "quick", "byte string: \\xff\\x00a denotes the bytes FF 00 61 (the byte itself, not the character U+00FF); \\u is refused"),
+                      ("esc", "thorough", "text string: \\n and \\\" denote line feed and quote"),
+                      ("uni", "thorough", "text string: \\u00e4 denotes U+00E4, stored as its UTF-8 bytes C3 A4")):
+    ob(f"O-C07-parse-string-{k}", ["C07"], J, f"c07_parse_string_{k}", "parse_string (the JSON / XJON string reader) on a literal run through hifijson's real slice lexer - " + what, ["jaq-json/src/read.rs::parse_string"], label="point", kind="point", tier=tier, composes_dependency=True)
+
 # ------------------------------------------------------------------------------------ C08
 ob("O-C08-float", ["C08"], J, "c08_float_cmp_order", "float_cmp is a total preorder on non-NaN floats (reflexive, antisymmetric, transitive over all triples), float_eq <=> Equal, and it agrees with IEEE <, ==, > (so -inf < finite < +inf, -0 == +0)", [NUM + "float_cmp", NUM + "float_eq"])
 for k, kinds in (("ii", "Int,Int"), ("if", "Int,Float"), ("fi", "Float,Int"), ("ff", "Float,Float")):
@@ -276,8 +282,8 @@ CFG = {
         },
         "C07": {
             "level": "other",
-            "explanation": "The writer half of the string round trip is finite: for each of the 256 byte values the real write_byte! macro (with the two fall-back expressions its callers pass) is run into a recording fmt::Write and compared with the escape RFC 8259 section 7 prescribes. Exhaustive over u8 in the thorough tier (16 harnesses of 16 bytes); the quick tier covers the control characters, the quote, and DEL / the first non-ASCII block. This decides 'what jaq writes for a string byte is what RFC 8259 says'; it does not decide the round trip. The whole write_utf8! macro (predicate and splitting included) is additionally run at the boundaries of its is_special predicate (0x00, 0x1f, 0x20, 0x22, 0x5c, 0x7e, 0x7f, 0x80), one byte per harness: points. On the reader side only the number classifier parse_num is reached, at points run through hifijson's real slice lexer: exponent-without-dot and fraction literals stay decimals with their text kept character for character, lone signs and dangling `.` / `e` are reported errors (not a panic), integer literals are handed whole to the integer parser in base 10.",
-            "not_decided": "the string reader (hifijson lexer, parse_string), hence print-then-parse = id itself; number literals beyond the listed points and the integer parser (core / num-bigint); the splitting logic of write_utf8! beyond one-byte strings at the listed boundary bytes; shortest-round-trip float printing (ryu), big-integer and decimal literals, key order (indexmap), nesting, indentation / sort_keys, the CLI path, agreement with an independent RFC 8259 parser",
+            "explanation": "The writer half of the string round trip is finite: for each of the 256 byte values the real write_byte! macro (with the two fall-back expressions its callers pass) is run into a recording fmt::Write and compared with the escape RFC 8259 section 7 prescribes. Exhaustive over u8 in the thorough tier (16 harnesses of 16 bytes); the quick tier covers the control characters, the quote, and DEL / the first non-ASCII block. This decides 'what jaq writes for a string byte is what RFC 8259 says'; it does not decide the round trip. The whole write_utf8! macro (predicate and splitting included) is additionally run at the boundaries of its is_special predicate (0x00, 0x1f, 0x20, 0x22, 0x5c, 0x7e, 0x7f, 0x80), one byte per harness: points. On the reader side only the number classifier parse_num is reached, at points run through hifijson's real slice lexer: exponent-without-dot and fraction literals stay decimals with their text kept character for character, lone signs and dangling `.` / `e` are reported errors (not a panic), integer literals are handed whole to the integer parser in base 10; and the string reader parse_string at four literals (invalid UTF-8 copied as-is, \\xNN in byte strings is the byte NN, the two-character escapes, \\uXXXX). write_buf, the writer behind tojson, is run on a string with an invalid byte and on null / true (points).",
+            "not_decided": "the string reader beyond four literals (hifijson lexer), hence print-then-parse = id itself; number literals beyond the listed points and the integer parser (core / num-bigint); the splitting logic of write_utf8! beyond one-byte strings at the listed boundary bytes; shortest-round-trip float printing (ryu), big-integer and decimal literals, key order (indexmap), nesting, indentation / sort_keys, the CLI path, agreement with an independent RFC 8259 parser",
             "assumptions": ["core::fmt (format_args!, LowerHex, char::escape_default) is executed as compiled on concrete bytes"],
         },
         "C11": {
